@@ -224,6 +224,9 @@ type wcfg struct {
 	// PreRun runs after the session has been constructed (its own hooks are registered) and before it is started
 	// (an initiator sends its Logon when started)
 	PreRun func(w *world)
+	// Opts: the options object handed to the constructor, when several sessions are to share one (as the sessions
+	// of one acceptor naturally do)
+	Opts *session.Opts
 }
 
 type world struct {
@@ -252,6 +255,9 @@ type world struct {
 }
 
 func optsFor(c wcfg) *session.Opts {
+	if c.Opts != nil {
+		return c.Opts
+	}
 	o := opts(c.Allowed...)
 	if c.MinimalTags {
 		o.Tags = &messages.Tags{MsgType: 35, MsgSeqNum: 34}
